@@ -681,9 +681,85 @@ def m_from_str(ex, a, m):
             return ok(py_to_variable(json.loads(txt, parse_constant=bad)))
         except Exception as e:
             return err(Agg('struct', 'SerdeJsonError', None, [Cell(rstr(str(e)))]))
-    k, v = jsonmodel.parse_json(ex, sv.chars)
+    k, v = jsonmodel.parse_tree(ex, sv.chars)
     if k == 'err': return err(Agg('struct', 'SerdeJsonError', None, [Cell(rstr(v))]))
-    return ok(v)
+    # the target type is deserialised by its OWN Deserialize impl (for Variable: the crate's visitor), driven the way serde_json drives it
+    tm = re.search(r'from_str::<(.*)>$', ex.cur_callee or '')
+    target = (tm.group(1) if tm else 'Variable').split(',')[-1].strip().split('::')[-1]
+    f = ex.prog.by_key.get(('Deserialize', target, 'deserialize'))
+    if f is None:
+        if target == 'Variable': return ok(jsonmodel.build(v))
+        raise Unsupported(f'serde_json::from_str::<{target}>')
+    return ex.run_fn(f, [JsonDeV(v)])
+class JsonDeV:
+    """serde_json's deserializer positioned at one JSON value (model)"""
+    __slots__ = ('tree',)
+    def __init__(s, tree): s.tree = tree
+    def __repr__(s): return f'<serde_json deserializer at {s.tree[0]}>'
+class SeqAccV:
+    __slots__ = ('items', 'i')
+    def __init__(s, items): s.items, s.i = items, 0
+class MapAccV:
+    __slots__ = ('pairs', 'i')
+    def __init__(s, pairs): s.pairs, s.i = pairs, 0
+def _visitor_fn(ex, visitor, meth):
+    """the visit_* method of the visitor value (a unit struct declared inside a Deserialize impl of the crate)"""
+    ty = visitor.ty if isinstance(visitor, Agg) else None
+    cache = ex.prog.__dict__.setdefault('_visitor_fns', {})
+    key = (ty, meth)
+    if key not in cache:
+        cands = [f for n, f in ex.prog.fns.items() if n.endswith('>::' + meth) and 'deserialize::<impl at' in n and f.params and ty and ty in f.locals[f.params[0]]]
+        cache[key] = cands[0] if len(cands) == 1 else None
+    return cache[key]
+@model_override(r'^<.+ as (?:serde::)?(?:de::)?Deserializer(?:<.*>)?>::deserialize_any$')
+def m_jsonde_any(ex, a, m):
+    d = a[0]
+    if not isinstance(d, JsonDeV): return NotImplemented
+    vis = a[1]; t = d.tree; k = t[0]
+    def call(meth, args):
+        f = _visitor_fn(ex, vis, meth)
+        if f is None: raise Unsupported(f'visitor method {meth} not found (default serde method?)')
+        return ex.run_fn(f, [vis] + args)
+    if k == 'null': return call('visit_unit', [])
+    if k == 'bool': return call('visit_bool', [Bool(t[1])])
+    if k == 'str': return call('visit_str', [Ptr(Cell(StrV(t[1])), 'ref')])
+    if k == 'num':
+        n = t[1]
+        if n.kind == 'pos': return call('visit_u64', [n.val])
+        if n.kind == 'neg': return call('visit_i64', [n.val])
+        return call('visit_f64', [n.val])
+    if k == 'arr': return call('visit_seq', [SeqAccV(t[1])])
+    return call('visit_map', [MapAccV(t[1])])
+def _de_rc_variable(ex, tree):
+    f = ex.prog.by_key.get(('Deserialize', 'Variable', 'deserialize'))
+    r = ex.run_fn(f, [JsonDeV(tree)])
+    if r.variant != 'Ok': return r
+    return ok(Ptr(Cell(r.fields[0].v), 'rc'))          # serde's impl Deserialize for Rc<T>: T::deserialize then Rc::new
+@model_override(r'^<.+ as (?:serde::)?(?:de::)?SeqAccess(?:<.*>)?>::next_element$')
+def m_seqacc_next(ex, a, m):
+    acc = a[0].cell.v if isinstance(a[0], Ptr) else a[0]
+    if not isinstance(acc, SeqAccV): return NotImplemented
+    if acc.i >= len(acc.items): return ok(none())
+    t = acc.items[acc.i]; acc.i += 1
+    r = _de_rc_variable(ex, t)
+    return ok(some(r.fields[0].v)) if r.variant == 'Ok' else r
+@model_override(r'^<.+ as (?:serde::)?(?:de::)?MapAccess(?:<.*>)?>::next_entry$')
+def m_mapacc_next(ex, a, m):
+    acc = a[0].cell.v if isinstance(a[0], Ptr) else a[0]
+    if not isinstance(acc, MapAccV): return NotImplemented
+    if acc.i >= len(acc.pairs): return ok(none())
+    k, t = acc.pairs[acc.i]; acc.i += 1
+    r = _de_rc_variable(ex, t)
+    if r.variant != 'Ok': return r
+    return ok(some(Agg('tuple', None, None, [Cell(rstr(k)), Cell(r.fields[0].v)])))
+@model_rx(r'^<(i64|u64|i32|u32|u8|i8|u16|i16|usize|isize) as Into<serde_json::Number>>::into$')
+def m_int_into_number(ex, a, m):
+    v = a[0]; ty = m.group(1)
+    if ty[0] == 'u': return NumberV('pos', Int(z3.ZeroExt(64 - v.bv.size(), v.bv) if v.bv.size() < 64 else v.bv, 'u64') if v.concrete() is None else Int(v.concrete(), 'u64'))
+    c = v.concrete()
+    if c is not None: return NumberV('neg', Int(c, 'i64')) if c < 0 else NumberV('pos', Int(c, 'u64'))
+    w = Int(z3.SignExt(64 - v.bv.size(), v.bv) if v.bv.size() < 64 else v.bv, 'i64')
+    return NumberV('neg', w) if ex.branch_bool(Bool(w.bv < 0)) else NumberV('pos', Int(w.bv, 'u64'))
 @model('<serde_json::Error as ToString>::to_string')
 def m_sj_err_to_string(ex, a): return StrV(deref_all(a[0]).fields[0].v.chars)
 
@@ -761,6 +837,14 @@ def fmt_display(ex, v):
         ex.run_fn(f, [Ptr(Cell(v)), Ptr(Cell(fm))])
         return ''.join(fm.buf)
     raise Unsupported(f'display of {v!r}')
+def fmt_display_chars(ex, v):
+    """like fmt_display but keeps symbolic characters"""
+    v = deref_all(v)
+    if isinstance(v, StrV): return list(v.chars)
+    if isinstance(v, Agg) and ex.prog.by_key.get(('Display', v.ty, 'fmt')):
+        fm = FormatterV(); ex.run_fn(ex.prog.by_key[('Display', v.ty, 'fmt')], [Ptr(Cell(v)), Ptr(Cell(fm))])
+        return list(fm.chars)
+    return list(fmt_display(ex, v))
 def fmt_debug(ex, v):
     v = deref_all(v)
     if isinstance(v, Agg) and v.lazy is not None: return f'<symbolic {v.ty}>'
@@ -805,8 +889,7 @@ MODELS['format'] = MODELS['std::fmt::format'] = MODELS['alloc::fmt::format'] = l
 @model_rx(r'^<.* as ToString>::to_string$')
 def m_to_string(ex, a, m):
     v = deref_all(a[0])
-    if isinstance(v, Agg) and v.ty == 'Variable': return rstr(variable_json(ex, v))
-    return rstr(fmt_display(ex, v))
+    return StrV(fmt_display_chars(ex, v))
 @model('std::fmt::Formatter::write_str')
 def m_write_str(ex, a):
     f = a[0].cell.v; sv = as_str(a[1]); f.chars.extend(sv.chars)
@@ -1598,3 +1681,82 @@ def m_str_scan_sym(ex, a, m):
         if op == 'lines': pieces = [p[:-1] if (p and is_ch(ex, p[-1], '\r')) else p for p in pieces]
     if op == 'rsplit': pieces = pieces[::-1]
     return IterV(iter([mk(p) for p in pieces]))
+
+# ------------------------------------------------------------------------------------------ serde_json as a Serializer (model): the crate's `impl Serialize for Variable` runs from its MIR
+class JsonSerV:
+    """serde_json's serializer (to_string / to_value): collects the JSON tree the Serialize impl emits"""
+    __slots__ = ('mode',)
+    def __init__(s, mode='text'): s.mode = mode
+def _ser_value(ex, v, ser):
+    """serialise an engine value the way serde / serde_json's own impls do for std types, calling back into crate MIR for crate types"""
+    v0 = v
+    while isinstance(v, Ptr): v = v.cell.v
+    if isinstance(v, Agg) and v.ty == 'Variable':
+        f = ex.prog.by_key.get(('Serialize', 'Variable', 'serialize'))
+        r = ex.run_fn(f, [Ptr(Cell(v), 'ref'), ser])
+        if r.variant != 'Ok': raise JsonSerErr(r)
+        return r.fields[0].v.tree
+    if isinstance(v, VecV): return ('arr', [_ser_value(ex, c.v, ser) for c in v.items])
+    if isinstance(v, MapV):
+        if not v.ordered and len(v.d) > 1: raise Unsupported('serialising a HashMap: iteration order unspecified')
+        return ('obj', [(k, _ser_value(ex, v.d[k].v, ser)) for k in v.keys()])
+    if isinstance(v, NumberV): return ('num', v)
+    if isinstance(v, StrV): return ('str', list(v.chars))
+    if isinstance(v, Bool): return ('bool', v)
+    raise Unsupported(f'serde_json serialisation of {type(v).__name__}')
+class JsonSerErr(Exception):
+    def __init__(s, r): s.r = r
+class JsonTreeV:
+    __slots__ = ('tree',)
+    def __init__(s, tree): s.tree = tree
+@model_override(r'^<.+ as (?:serde::)?(?:ser::)?Serializer>::serialize_(unit|bool|str|none)$')
+def m_jsonser_scalar(ex, a, m):
+    if not isinstance(a[0], JsonSerV): return NotImplemented
+    k = m.group(1)
+    if k in ('unit', 'none'): return ok(JsonTreeV(('null',)))
+    if k == 'bool': return ok(JsonTreeV(('bool', a[1])))
+    return ok(JsonTreeV(('str', list(as_str(a[1]).chars))))
+@model_override(r'^<.+ as (?:serde::)?(?:ser::)?Serialize>::serialize$')
+def m_jsonser_std(ex, a, m):
+    """Vec<Rc<Variable>>, BTreeMap<String, Rc<Variable>>, serde_json::Number, Rc<Variable> into the serde_json serializer"""
+    if len(a) < 2 or not isinstance(a[1], JsonSerV): return NotImplemented
+    try: return ok(JsonTreeV(_ser_value(ex, a[0], a[1])))
+    except JsonSerErr as e: return e.r
+def tree_text(ex, t):
+    """JSON tree -> characters (serde_json's compact printing; numbers need concrete payloads)"""
+    k = t[0]
+    if k == 'null': return list('null')
+    if k == 'bool':
+        b = t[1]; c = b.concrete() if isinstance(b, Bool) else b
+        if c is None: c = ex.branch_bool(b)
+        return list('true' if c else 'false')
+    if k == 'num':
+        n = t[1]; c = cval(n.val)
+        if c is None: raise Unsupported('symbolic number to JSON text')
+        return list(fmt_f64(c) if n.kind == 'float' else str(c))
+    if k == 'str':
+        out = ['"']
+        for ch in t[1]:
+            if isinstance(ch, str): out.extend(json.dumps(ch, ensure_ascii=False)[1:-1])
+            else:
+                x = ch.bv
+                if ex.branch_bool(Bool(z3.Or(x == 34, x == 92, z3.ULT(x, 32)))):
+                    kx = ex.concretize_int(ch, 'char to escape'); out.extend(json.dumps(chr(kx), ensure_ascii=False)[1:-1])
+                else: out.append(ch)
+        out.append('"'); return out
+    if k == 'arr':
+        out = ['[']
+        for i, x in enumerate(t[1]):
+            if i: out.append(',')
+            out.extend(tree_text(ex, x))
+        out.append(']'); return out
+    out = ['{']
+    for i, (kk, x) in enumerate(t[1]):
+        if i: out.append(',')
+        out.extend(json.dumps(kk, ensure_ascii=False)); out.append(':'); out.extend(tree_text(ex, x))
+    out.append('}'); return out
+@model_rx(r'^serde_json::to_string$')
+def m_sj_to_string(ex, a, m):
+    try: t = _ser_value(ex, a[0], JsonSerV('text'))
+    except JsonSerErr as e: return e.r
+    return ok(StrV(tree_text(ex, t)))
